@@ -14,6 +14,11 @@ package interpreter
 
 //@ ghost field interpreter.Interpreter.g_logRuns int
 
+// Well-formedness of standard-library HTTP messages handed to the interpreter: every request and
+// response it works on was built by net/http or by falco with a non-nil header map.
+//@ typeinv net/http.Request self.Header != nil
+//@ typeinv net/http.Response self.Header != nil
+
 //@ pred okI(i *Interpreter) = i != nil && i.ctx != nil && i.ctx.Restarts >= 0 && i.ctx.Restarts <= limitations.MaxVarnishRestarts
 //@ pred logOnce(i *Interpreter, err error) = err == nil && i.ctx != nil && !i.ctx.IsPurgeRequest ==> i.g_logRuns == old(i.g_logRuns) + 1
 //@ pred measure(i *Interpreter) = limitations.MaxVarnishRestarts - i.ctx.Restarts
